@@ -34,6 +34,9 @@ def stop_of(c, U):
     return st or None
 
 
+METHOD = {"legacy": "solve_legacy"}        # operation name in Driver.tla -> method of the real integrator
+
+
 def run_script(D, cn, sc, variant, islinear=0):
     """replay one script on one real class; returns raws (script calls + twins) and relations"""
     U = D.UNIT
@@ -57,7 +60,7 @@ def run_script(D, cn, sc, variant, islinear=0):
         tkey = tuple(c["tsave"])
         if tkey not in tsave_pool:
             tsave_pool[tkey] = [t / U for t in c["tsave"]]
-        raw, res = S.call(c["op"], f, float(c.get("cfl", 1)), tsave_pool[tkey], stop_pool[skey], monitors=mons,
+        raw, res = S.call(METHOD.get(c["op"], c["op"]), f, float(c.get("cfl", 1)), tsave_pool[tkey], stop_pool[skey], monitors=mons,
                           intent={"stop": stop_of(c, U), "tsave": [t / U for t in c["tsave"]]})
         raws.append(raw)
         froms.append("last" if c["cont"] else "f0")
@@ -78,12 +81,12 @@ def run_script(D, cn, sc, variant, islinear=0):
     # twin 1: the first call repeated on a fresh object
     c0 = calls[0]
     S2 = D.Session(cn, ncell=3, profile=sc["prof"], t0=sc["t0"] / U, islinear=islinear)
-    raw, _ = S2.call("solve", S2.f0, float(c0.get("cfl", 1)), [t / U for t in c0["tsave"]], stop_of(c0, U),
+    raw, _ = S2.call(METHOD.get(c0["op"], "solve"), S2.f0, float(c0.get("cfl", 1)), [t / U for t in c0["tsave"]], stop_of(c0, U),
                      monitors=mon_dict(c0["freqs"], variant) if c0["freqs"] else None)
     raws.append(raw)
     rels.append({"type": "same", "a": 1, "b": len(raws), "c": 0})
     # twin 2: the plain run (no save time, no monitor) with the same stop, fresh object
-    if c0["tsave"] or c0["freqs"]:
+    if (c0["tsave"] or c0["freqs"]) and c0["op"] != "legacy":
         S3 = D.Session(cn, ncell=3, profile=sc["prof"], t0=sc["t0"] / U, islinear=islinear)
         et, em = eff_stop(c0)
         raw, _ = S3.call("solve", S3.f0, float(c0.get("cfl", 1)), [], stop_of({"tot": et, "maxit": em}, U))
